@@ -38,10 +38,16 @@ structure Variant where
   /-- F19: the index builder reads `t`, version, auto_* only when the size in the file is the size of
       the variable; a `t` field of another size makes the blob corrupt (simulationarchive.c:193-201,244) -/
   f19 : Bool
+  /-- F18 (repo commit "compare particle doubles bitwise"): `reb_particle_diff` compares bit patterns -/
+  f18 : Bool
+  /-- F5 (repo commit "compare variational configurations member-wise"): the `var_config` record is compared
+      member by member, the `sim` pointer and the padding are ignored -/
+  f5 : Bool
 deriving DecidableEq, Repr
 
-def Variant.current : Variant := ⟨false, false, false, false⟩
-def Variant.fixed : Variant := ⟨true, true, true, true⟩
+/-- the tree as pinned at the start (d4648a4) -/
+def Variant.current : Variant := ⟨false, false, false, false, false, false⟩
+def Variant.fixed : Variant := ⟨true, true, true, true, true, true⟩
 
 /-! ### constants of the format -/
 def END : Nat := 9999
@@ -172,9 +178,35 @@ def particlesSame : Nat → Bytes → Bytes → Bool
   | 0, _, _ => true
   | n + 1, p, q => particleSame (p.take 128) (q.take 128) && particlesSame n (p.drop 128) (q.drop 128)
 
-/-- `!fields_differ` for two payloads of equal size (the code as it is) -/
+/-- `!fields_differ` for two payloads of equal size (pinned tree) -/
 def cmpReal (ty : Nat) (p q : Bytes) : Bool :=
   if ty = PARTICLES then particlesSame (p.length / 128) p q else p == q
+
+/-- `!reb_particle_diff` after the bitwise repair: the 12 doubles byte for byte, the hash -/
+def particleSameBits (p q : Bytes) : Bool :=
+  p.take 96 == q.take 96 && de ((p.drop 104).take 4) == de ((q.drop 104).take 4)
+
+def particlesSameBits : Nat → Bytes → Bytes → Bool
+  | 0, _, _ => true
+  | n + 1, p, q => particleSameBits (p.take 128) (q.take 128) && particlesSameBits n (p.drop 128) (q.drop 128)
+
+def VARCONFIG : Nat := 86
+
+/-- `!reb_variational_configuration_diff` on two 40-byte records: the five ints (bytes 8..28) and
+    `lrescale` (bytes 32..40, C `!=`); `sim` (0..8) and the padding (28..32) are not looked at -/
+def varcfgSame (p q : Bytes) : Bool :=
+  (p.drop 8).take 20 == (q.drop 8).take 20 && ieeeEq (de ((p.drop 32).take 8)) (de ((q.drop 32).take 8))
+
+def varcfgsSame : Nat → Bytes → Bytes → Bool
+  | 0, _, _ => true
+  | n + 1, p, q => varcfgSame (p.take 40) (q.take 40) && varcfgsSame n (p.drop 40) (q.drop 40)
+
+/-- `!fields_differ` of the source variant `v` -/
+def cmpOf (v : Variant) (ty : Nat) (p q : Bytes) : Bool :=
+  if ty = PARTICLES then
+    (if v.f18 then particlesSameBits (p.length / 128) p q else particlesSame (p.length / 128) p q)
+  else if ty = VARCONFIG ∧ v.f5 = true then varcfgsSame (p.length / 40) p q
+  else p == q
 
 /-! ### delta encoder on field lists, with the position logic of the C code -/
 /-- search from just past the header for a field of type `ty` (binarydiff.c:156-174):
